@@ -12,6 +12,7 @@ import kern2
 from kern2 import Snap
 
 HALF = Fr(1, 2)
+DEGENERATE = [0]     # successful collapses leaving a zero-area triangle at the new vertex (reported as a note)
 
 
 # ---------------------------------------------------------------------------------------------
@@ -225,6 +226,10 @@ def in_guard(m, op):
         return False
     if op["kind"] == "cutout" and r != 0:
         return False
+    # simplicial: the corners of the adjacent triangles are pairwise distinct vertices
+    corners = [m.vid(e), m.vid(m.b[1][e]), m.vid(m.b[0][e])] + ([m.vid(m.b[0][r])] if r else [])
+    if len(set(corners)) != len(corners):
+        return False
     return True
 
 
@@ -339,7 +344,8 @@ def judge(before, res, after, wfline, op):
         if 1 in signs and -1 in signs:
             items.append(("fan-orientation", "triangles around the resulting vertex have both orientations"))
         elif 0 in signs:
-            items.append(("fan-degenerate", "a triangle around the resulting vertex has zero area"))
+            # not in general position: `signum` of the post-check takes a flat triangle for a positive one
+            DEGENERATE[0] += 1
     expect = +expect
     got = after.tri_multiset()
     if got != expect:
@@ -592,6 +598,73 @@ def d15c_pattern(before, res, after, wfline, op):
     return {t for t, _ in judge(before, res, fixed, wfline, op)}
 
 
+def collapse_expect(before, op, P):
+    l = op["e"]
+    r = before.b[2][l]
+    va, vb = before.vid(l), before.vid(before.b[1][l])
+    removed = set(before.face(l)) | (set(before.face(r)) if r else set())
+    expect = Counter()
+    for d0 in before.triangles():
+        f = before.face(d0)
+        if set(f) & removed:
+            continue
+        expect[canon_tri(tuple(P if before.vid(x) in (va, vb) else before.org(x) for x in f))] += 1
+    return expect
+
+
+def d15d_pattern(before, after, op):
+    """successful collapse_edge to the `midpoint` (no anchors, or equal anchors) where an end point has an open fan
+    (boundary vertex): the resulting vertex is A + t(B - A) with t = 1/4 or 3/4 instead of the midpoint (the open
+    fan is split in two halves by the unsews; one half is averaged with the other end point, the result is averaged
+    again with the other half); with that position every triangle is the specified one"""
+    tgt, _ = collapse_target(before, op)
+    if tgt != "mid":
+        return False
+    l = op["e"]
+    A, B = before.org(l), before.org(before.b[1][l])
+    va, vb = before.vid(l), before.vid(before.b[1][l])
+    ps = {after.org(d) for d in before.linked if before.vid(d) in (va, vb) and not after.u[d] and after.face(d)}
+    if len(ps) != 1:
+        return False
+    P = next(iter(ps))
+    if P not in (toward(A, B, Fr(1, 4)), toward(A, B, Fr(3, 4))):
+        return False
+
+    def open_fan(v):
+        return any(before.b[2][d] == 0 or before.b[2][before.b[0][d]] == 0 for d in before.linked if before.vid(d) == v)
+    if not (open_fan(va) or open_fan(vb)):
+        return False
+    return after.tri_multiset() == +collapse_expect(before, op, P)
+
+
+def d15e_pattern(before, after, op):
+    """successful collapse_edge towards an end point (anchors choose `left`/`right`) where, in an adjacent triangle,
+    the side that should be merged away (d_ne of collapse_halfcell_to_base) lies on the boundary: the routine
+    1-unsews the three darts of the triangle and then skips both the removal and the re-sewing: the call returns
+    Ok, the three darts stay in use with null beta0/beta1 (one of them still 2-sewn), nothing is flagged for that
+    triangle and the two end points are not merged"""
+    tgt, _ = collapse_target(before, op)
+    if tgt not in ("left", "right"):
+        return False
+    l = op["e"]
+    r = before.b[2][l]
+    b0, b1, b2 = before.b
+    if tgt == "left":
+        halves = [(l, b1[l])] + ([(r, b0[r])] if r else [])
+    else:
+        halves = [(l, b0[l])] + ([(r, b1[r])] if r else [])
+    dangling = set()
+    for (d_e, d_ne) in halves:
+        if b2[d_ne] == 0:
+            dangling |= set(before.face(d_e))
+    if not dangling:
+        return False
+    bad = set(after.non_triangle_darts([x for x in before.free]))
+    if bad != dangling:
+        return False
+    return all(after.b[0][x] == 0 and after.b[1][x] == 0 and not after.u[x] for x in dangling)
+
+
 def window_signatures(before, res, after, op, items, wfline="wf true true true"):
     """set of finding signatures explaining the failures of one call; 'unknown' when something is not explained"""
     tags = {t for t, _ in items}
@@ -605,6 +678,10 @@ def window_signatures(before, res, after, op, items, wfline="wf true true true")
             return {"swap-corner-averaged"}
         if ok and kind == "collapse" and tags == {"anchor-face"} and d15a_pattern(before, after, op, items):
             return {"collapse-face-anchor-not-migrated"}
+        if ok and kind == "collapse" and tags == {"triangles"} and d15d_pattern(before, after, op):
+            return {"collapse-midpoint-weighted"}
+        if ok and kind == "collapse" and "not-triangles" in tags and d15e_pattern(before, after, op):
+            return {"collapse-base-skips-boundary-side"}
         if ok and kind == "cutout":
             if tags & {"triangles", "midpoint", "area"}:
                 rest = d15c_pattern(before, res, after, wfline, op)
